@@ -192,10 +192,33 @@ type mkSafetyEvent struct {
 	TextLen int      `json:"textLen"`
 	Attrs   [][2]int `json:"attrs"` // position, length
 	Tfa     []int    `json:"tfa"`   // 0 ok, 1 TextForAttribute panicked
+	// kind "kept": the result of parsing Hex, looked at again after the same parser went on to parse Then
+	Then string `json:"then,omitempty"`
 }
 
 func mkSafetyRun(id int, kind, input string) mkSafetyEvent {
-	r := mkParse(&markup.LineParser{}, input)
+	return mkSafetyEventOf(id, kind, input, mkParse(&markup.LineParser{}, input))
+}
+
+// mkSafetyKept parses `input` and then `then` with one parser and reports what the FIRST result looks
+// like afterwards (a result stays safe to use whatever its parser does later); nil if there is none.
+func mkSafetyKept(id int, input, then string) *mkSafetyEvent {
+	p := &markup.LineParser{}
+	_, pr := mkParseKeep(p, input)
+	if pr == nil {
+		return nil
+	}
+	mkParse(p, then)
+	var again mkRes
+	if !guarded(func() { again = mkConvertResult(pr) }) {
+		again = mkFail("panic")
+	}
+	ev := mkSafetyEventOf(id, "kept", input, again)
+	ev.Then = hex.EncodeToString([]byte(then))
+	return &ev
+}
+
+func mkSafetyEventOf(id int, kind, input string, r mkRes) mkSafetyEvent {
 	ev := mkSafetyEvent{Ev: "fuzz", ID: id, Kind: kind, Hex: hex.EncodeToString([]byte(input)), Outcome: r.Outcome,
 		TextLen: len(r.Text), Attrs: [][2]int{}, Tfa: []int{}}
 	for _, a := range r.Attrs {
@@ -217,6 +240,7 @@ func markupFuzz(m map[string]string) error {
 	id := 0
 	counts := map[string]int{}
 	timeouts := 0
+	prevInput, havePrev := "", false
 	emit := func(kind, input string) error {
 		if timeouts >= 5 { // every further input would cost the watchdog delay again
 			return nil
@@ -226,8 +250,26 @@ func markupFuzz(m map[string]string) error {
 		ev := mkSafetyRun(id, kind, input)
 		if ev.Outcome == "timeout" {
 			timeouts++
+			return out.Write(ev)
 		}
-		return out.Write(ev)
+		if err := out.Write(ev); err != nil {
+			return err
+		}
+		// every third input is also parsed after the previous one by the same parser, and the
+		// previous result is looked at again
+		if havePrev && id%3 == 0 && m["inputs"] == "" {
+			id++
+			if kv := mkSafetyKept(id, prevInput, input); kv != nil {
+				counts["kept"]++
+				if err := out.Write(kv); err != nil {
+					return err
+				}
+			} else {
+				id--
+			}
+		}
+		prevInput, havePrev = input, true
+		return nil
 	}
 	if f := m["inputs"]; f != "" { // replay of stored inputs: [{"kind":..,"hex":..}]
 		raws, err := readNDJSON(f)
@@ -238,6 +280,7 @@ func markupFuzz(m map[string]string) error {
 			var in struct {
 				Kind string `json:"kind"`
 				Hex  string `json:"hex"`
+				Then string `json:"then"`
 			}
 			if err := json.Unmarshal(raw, &in); err != nil {
 				return err
@@ -245,6 +288,20 @@ func markupFuzz(m map[string]string) error {
 			b, err := hex.DecodeString(in.Hex)
 			if err != nil {
 				return err
+			}
+			if in.Kind == "kept" {
+				t, err := hex.DecodeString(in.Then)
+				if err != nil {
+					return err
+				}
+				id++
+				counts["kept"]++
+				if kv := mkSafetyKept(id, string(b), string(t)); kv != nil {
+					if err := out.Write(kv); err != nil {
+						return err
+					}
+				}
+				continue
 			}
 			if err := emit(in.Kind, string(b)); err != nil {
 				return err
